@@ -217,7 +217,7 @@ def run(ck):
                         elif (short(fn), idiom) in G3_EXCEPTIONS:
                             ck.ok("C07.G3", short(fn) + ":" + idiom, w,
                                   "frozen exception: " + G3_EXCEPTIONS[(short(fn), idiom)], T.show(arg)[:200])
-                        elif idiom == "numpy.max" and short(fn) == "OpticalMap.getInitialAlignment" and \
+                        elif idiom in ("numpy.max", "numpy.amax", ".max") and short(fn) == "OpticalMap.getInitialAlignment" and \
                                 _g5_fact(f2) is False:
                             ck.ok("C07.G3", short(fn) + ":" + idiom, w,
                                   "frozen exception: 'valid' correlation of two non-empty vectors, under the G5 guard",
